@@ -492,6 +492,7 @@ func genC02(g *Gen) {
 	_ = strings.Join
 
 	// (e) the real DiskWriter behind the real diff on a scratch directory (see c05.go)
+	c05TmpNames(g, 0x0203) // first: see there
 	c05SpecialLinks(g, func(A, Bl []flatEntry, cls string) {
 		c05EmitCase(g, 0x0203, 0, 0, uint64(g.Rng.Intn(3)), c02CloneEntries(A), c02CloneEntries(Bl), cls)
 		c02EmitResync(g, 0, 0, c02CloneEntries(A), c02CloneEntries(Bl), cls)
@@ -510,5 +511,6 @@ func genC02(g *Gen) {
 	// walks (kind 0205)
 	c02HistoryDirected(g)
 	c02HistoryFiltered(g)
+	c02HistoryRemovals(g)
 	c02HistoryRandom(g, g.Vol(150, 3000))
 }
